@@ -148,6 +148,21 @@ def run_paths(spec):
                         return Out(ok=False, msg="group velocities depend on the other requested outputs (%s)" % tag)
             else:
                 base["gv"] = gv.copy()
+    if spec["nac"] != "none":
+        # the zone centre with a direction: frequencies, eigenvectors and the reported matrix belong together there too
+        ndir = [0.3, -0.5, 0.8]
+        ph.run_qpoints([[0, 0, 0], qs[0]], with_eigenvectors=True, with_dynamical_matrices=True, nac_q_direction=ndir)
+        dg = ph.get_qpoints_dict()
+        dm.run([0, 0, 0], q_direction=ndir)
+        Dg = dm.dynamical_matrix.copy()
+        if np.abs(dg["dynamical_matrices"][0] - Dg).max() > 1e-11 * sc:
+            return Out(ok=False, msg="run_qpoints(nac_q_direction) reports a zone-centre dynamical matrix different from DynamicalMatrixNAC.run(q_direction): "
+                       "%.3e" % (np.abs(dg["dynamical_matrices"][0] - Dg).max() / sc))
+        v = dg["eigenvectors"][0]
+        r = np.abs(dg["dynamical_matrices"][0] @ v - v * _lam(dg["frequencies"][0], factor)).max() / sc
+        if r > 1e-9:
+            return Out(ok=False, msg="zone centre with nac_q_direction: reported eigenvectors do not diagonalise the reported dynamical matrix to the reported "
+                       "eigenvalues: residual %.3e" % r)
     # single-q convenience API
     for i, q in enumerate(qs[:2]):
         f1 = ph.get_frequencies(q)
